@@ -6,6 +6,7 @@ CONSTANTS
   MaxBacks = 2
   MaxSize = 5
   Deviations = {"DupFrontendAccepted"}
+  Focus = "all"
   Emit = TRUE
 INVARIANTS EmitFile
 CHECK_DEADLOCK FALSE
